@@ -180,8 +180,10 @@ def gen_net(rng, idx, profile):
         if last.kind in ("STRIDED_SLICE", "SPLIT"):
             # a slice is folded into its consumer as a read offset: windows with padding and fused activations go wrong
             avoid = set(allk) - {"conv1x1", "add_self", "add_skip", "mul_skip", "mul_const", "sub_const", "add_const", "quantize", "lrelu"}
-        if last.kind in ("QUANTIZE", "RESHAPE") + ACTIVATION_LIKE or (last.opts and last.opts[1].get("FusedActivationFunction", 0)):
+        if last.kind in ("QUANTIZE", "RESHAPE", "PAD") + ACTIVATION_LIKE or (last.opts and last.opts[1].get("FusedActivationFunction", 0)):
             avoid.add("relu")
+        if last.kind == "PAD":
+            avoid |= {"avgpool_valid", "avgpool_same"}      # folded into a depthwise convolution: its fused activation goes wrong
         if last.kind in ACTIVATION_LIKE or kind == "pad_conv":
             avoid |= {"fc_end", "reshape_back"}
     if profile == "approx" and len(b.t(cur).shape) == 4:
@@ -245,6 +247,9 @@ def corpus_net(rng, name):
         b.t(y).zps = [-5]
         z = b.conv(y, 8, (3, 3), (3, 3), (1, 1), "SAME", act=0, out_scale=0.1)
         b.t(z).zps = [7]
+    elif name == "known_pad_avgpool_act":
+        p = b.pad(x, [[0, 0], [1, 0], [0, 1], [0, 0]])
+        z = b.pool(p, "AVERAGE_POOL_2D", (2, 2), (1, 1), "VALID", act=1)
     elif name == "known_reshape_relu":
         z = b.unary("RELU6", b.reshape(x, [1, 4, 9, 8]))
     else:  # known_quantize_relu
@@ -380,14 +385,17 @@ def classify_failure(o, ans):
                 and producer[ins[0]][0] in ("STRIDED_SLICE", "SPLIT"):
             return "slice-read-offset-window-rows-not-clamped-to-slice"
     for kind, ins, outs, faf, pad in g:
+        if kind == "AVERAGE_POOL_2D" and pad == 1 and faf != 0 and ins and ins[0] in producer and producer[ins[0]][0] == "PAD":
+            return "pad-folded-into-avgpool-fused-activation-clamps-with-zero-point-0"
+    for kind, ins, outs, faf, pad in g:
         if kind in RELUS and ins and ins[0] in producer:
             pk, pf, _pins = producer[ins[0]]
             if pk in ("STRIDED_SLICE", "SPLIT"):
                 return "activation-after-slice-fused-into-producer-drops-read-offset"
             if pf != 0 or pk in ACTIVATION_LIKE:
                 return "packed-relu-overrides-fused-activation"
-            if pk == "QUANTIZE":
-                return "relu-fused-into-requantising-avgpool-adds-zero-point-twice"
+            if pk in ("QUANTIZE", "PAD"):
+                return "relu-fused-into-avgpool-that-keeps-its-zero-point-adds-it-twice"
             # activation reached from a graph input through memory-only operators only
             t = ins[0]
             while t in producer and producer[t][0] in MEMORY_ONLY:
@@ -429,10 +437,10 @@ def main():
     import pipeline
 
     pipeline.load_vela()
-    n = 6000 if ck.thorough else 600
+    n = 30000 if ck.thorough else 2000
     k_inputs = 5 if ck.thorough else 4
     jobs = [(0, 0, "known_" + nm, k_inputs) for nm in ("slice_relu", "fused_act_relu", "pad_conv_reshape", "quantize_relu", "reshape_relu",
-                                                              "slice_window", "lut_reshape", "cascade_stale_row")]
+                                                              "slice_window", "lut_reshape", "cascade_stale_row", "pad_avgpool_act")]
     jobs += [(ck.seed, i, PROFILES[i % len(PROFILES)], k_inputs) for i in range(n)]
     ctx = multiprocessing.get_context("fork")
     with ProcessPoolExecutor(min(16, os.cpu_count() or 4), mp_context=ctx) as ex:
